@@ -4,3 +4,6 @@
 ; at every channel send of an integer value)
 ; histMissing(e): the datasource's NotFound verdict on error e (the relation has no history)
 (declare-fun histMissing (Iface) Bool)
+; noHist(r): the datasource has no history for relation r (what its NotFound verdict on the error of a
+; RelationHistory call for r means)
+(declare-fun noHist (Int) Bool)
